@@ -75,6 +75,27 @@ def generate(seed: int, tier: str, index: int, prop: str = ID, range_steps: bool
         actors.append({"id": f"obs{i + 1}", "kind": "vodplayer", "prng": rng.getrandbits(32),
                        "latency": {"min_us": rng.choice([0, 1000]), "jitter_us": rng.choice([0, 0, 200_000])},
                        "script": script})
+    if not range_steps and streams[0].startswith("fz") and rng.random() < 0.35:
+        # history: a manager replaces one file of the stream (same name, other segment layout) between two walks of
+        # the same manifest; the second walk must describe the file that is stored now
+        preset = next(p for p in mc.forge_presets() if p["dir"] == streams[0])
+        victims = [f["forge"] for f in preset["files"] if f["forge"]["name"] != preset["timing_ref"]]
+        if victims:
+            old = rng.choice(victims)
+            durs = list(old["durations"])
+            # same name, same total duration and segment count, other segment boundaries and payloads
+            if len(durs) >= 2 and durs[0] != durs[1]:
+                durs[0], durs[1] = durs[1], durs[0]
+            elif len(durs) >= 2 and durs[1] > 1:
+                durs[0], durs[1] = durs[0] + 1, durs[1] - 1
+            new_file = dict(old, durations=durs, sample_size=int(old.get("sample_size", 24)) + 8)
+            first = actors[0]["script"]
+            actors[0]["script"] = first + [{"op": "sleep", "us": 2_000_000}] + [dict(s) for s in first if s["op"] != "jump"]
+            actors.append({"id": "mgr", "kind": "manager", "role": "media", "prng": rng.getrandbits(32),
+                           "latency": {"min_us": 1000, "jitter_us": 0},
+                           "script": [{"op": "auth"}, {"op": "sleep", "us": 1_000_000},
+                                      {"op": "upload", "which": 0, "file": {"forge": new_file}},
+                                      {"op": "index", "which_file": -1}]})
     if rng.random() < 0.4:
         manifest = rng.choice(["hand_made.mpd", "manifest_e.mpd"])
         q = optgen.live_vector(rng, t0, manifest, richness=0.5, encrypted_ok=(streams[0] == "bbb"), patch_ok=False)
@@ -108,6 +129,13 @@ class Oracle:
         self.world = world
         self.index = StoredIndex(world.blob_dir)
         self.timing_refs = timing_refs
+        self.write_epoch = 0        # management requests delivered so far (a file may have been replaced)
+
+    def after_delivery(self, msg, resp) -> None:
+        if getattr(msg.actor, "kind", "") == "manager":
+            self.write_epoch += 1
+        else:
+            resp.write_epoch = self.write_epoch
 
     def on_manifest(self, actor, doc, prev) -> None:
         if not actor.id.startswith("obs"):
@@ -145,6 +173,10 @@ class Oracle:
     def on_walk(self, actor, result: dict) -> None:
         sim = self.sim
         doc, rep, enum = result["doc"], result["rep"], result["enum"]
+        if getattr(doc.resp, "write_epoch", self.write_epoch) != self.write_epoch:
+            # the stream was modified after this manifest had been served: it cannot describe what is stored now
+            sim.world.probe("c06.skip-walk-across-write")
+            return
         info = url_parts(enum.get("init") or enum.get("url") or (enum["segments"][0]["url"] if enum.get("segments") else doc.url))
         stream = info.get("stream") or url_parts(doc.url).get("stream")
         sf = self.index.file_for(stream, rep.id)
@@ -294,16 +326,23 @@ class Oracle:
 def execute(spec: dict, prop: str = ID, extra_observers=None, nontrivial_keys=("c06-walk",)) -> dict:
     template, timing_refs = mc.world_template(spec["world"])
     simclock.CLOCK.us = spec["t0_us"]
+    writes = any(a["kind"] == "manager" for a in spec["actors"])
     world, info = worlds.instantiate("run", template, secrets_seed=base.sub_seed(spec["seed"], "secrets"),
-                                     share_blobs=True)
+                                     share_blobs=not writes)
     try:
         simclock.CLOCK.us = spec["t0_us"]
         sim = Sim(world, spec["sched_seed"])
         observers = [Oracle(sim, world, timing_refs)] if prop == ID else []
+        if observers:
+            sim.after_delivery = observers[0].after_delivery
         if extra_observers:
             observers += extra_observers(sim, world)
         actors = []
         for a in spec["actors"]:
+            if a["kind"] == "manager":
+                from ..actors.manager import Manager
+                actors.append(Manager(sim, a))
+                continue
             cls = VodPlayer if a["kind"] == "vodplayer" else Player
             p = cls(sim, a)
             p.observers = observers if a["id"].startswith("obs") else []
